@@ -26,17 +26,39 @@ import (
 // source: one word per new node (randomLevel draws exactly one), from an LCG.
 type heightSrc struct {
 	kind string
+	seed uint64
 	s    uint64
 	n    int
+	nraw int
 }
 
 // wordForHeight: randomLevel = ((32 - bits.Len64(w & (2^32-1))) & 31) + 1.
 func wordForHeight(l int) uint64 { return 1 << (32 - l) }
 
+// rawWords are source words (not heights) whose low 32 bits hit every rare outcome of
+// randomLevel: k = 0, k = 1 (also through high bits that the mask drops), the top bit of k
+// set, all ones.
+var rawWords = []uint64{0, 1, 2, 3, 1<<31 - 1, 1 << 31, 1<<31 + 1, 1<<32 - 1, 1 << 32, 1<<32 + 1,
+	1 << 63, 1<<63 | 1, 1<<64 - 1}
+
+// raw: the i-th raw draw of a case with seed s is rawWords[(s+i) mod 14], index 13 standing for
+// "low 32 bits = 1, random high bits"; `heights=raw:1` therefore starts with the word 1.
+func (h *heightSrc) raw(x uint64) uint64 {
+	i := (h.seed + uint64(h.nraw)) % uint64(len(rawWords)+1)
+	h.nraw++
+	if int(i) == len(rawWords) {
+		return x<<32 | 1
+	}
+	return rawWords[i]
+}
+
 func (h *heightSrc) Uint64() uint64 {
 	h.s = h.s*6364136223846793005 + 1442695040888963407
 	x := h.s >> 20
 	h.n++
+	if h.kind == "raw" || (h.kind != "natural" && x%10 == 7) { // ≈ 10 % of the draws of every forced kind
+		return h.raw(x >> 4)
+	}
 	switch h.kind {
 	case "tall": // 8..32 most of the time: the level climbs to 32 one step per insertion
 		if x%8 == 0 {
@@ -56,7 +78,12 @@ func (h *heightSrc) Uint64() uint64 {
 func (h *heightSrc) Int63() int64 { return int64(h.Uint64() >> 1) }
 func (h *heightSrc) Seed(int64)   {}
 
-var heightKinds = []string{"natural", "tall", "flat", "alt"}
+// forObject derives the source of object k of a multi-object case.
+func (h *heightSrc) forObject(k int) *heightSrc {
+	return &heightSrc{kind: h.kind, seed: h.seed + uint64(k)*5, s: h.s + uint64(k)*0x9E3779B97F4A7C15}
+}
+
+var heightKinds = []string{"natural", "tall", "flat", "alt", "raw"}
 
 // parseHeights parses the header token `heights=<kind>:<seed>`.
 func parseHeights(tok string) (*heightSrc, bool) {
@@ -74,7 +101,7 @@ func parseHeights(tok string) (*heightSrc, bool) {
 	}
 	for _, k := range heightKinds {
 		if k == kind {
-			return &heightSrc{kind: kind, s: n*2654435761 + 12345}, true
+			return &heightSrc{kind: kind, seed: n, s: n*2654435761 + 12345}, true
 		}
 	}
 	return nil, false
